@@ -156,6 +156,8 @@ def run(pid, tier, seed, replay):
         "evaluations": stats.get("steps", 0), "distinct_nontrivial": stats.get("presents", 0) if pid == "C14" else stats.get("restarts", 0),
         "rule": "seeded histories over recorder crews; C14: 1-4 machines, routing targets from the whole vocabulary (absent, id, '*', lists with unknown/repeated/non-string members, service names, non-string), emission depth <=2; "
                 "C15: captain create/replace-state/replace-spec/delete/re-create operations (also emitted by machines) interleaved with ordinary messages, restart at every boundary; "
+                "C15 system stage: every behaviour TLC reaches on SioSystem.tla within the depth bound (one per generated state; a seeded sample in quick) replayed on the real crew, "
+                "seeded random runs chosen from what the real crew enables, and siostd-style runs with unobserved firings; "
                 "non-trivial = presentations observed (C14) / restarted crews compared (C15)",
         "judge_stats": stats, "exhaustive": False,
         "known_findings_hit": {k: v["count"] for k, v in rep.known.items()},
